@@ -66,6 +66,10 @@ def cases(ctx):
                 if k % N != S:
                     continue
                 yield {"k": "pbkdf2", "fn": fn, "password": gen.rbytes(r, pl).hex(), "salt": gen.rbytes(r, sl).hex(), "rounds": r.choice([1, 2, 3]), "len": r.choice([20, 32, 33, 64, 65])}
+    # random-salt mode: the library draws the salt and reports it; the reference recomputes with the reported salt
+    for i in range(24 if t else 6):
+        if i % N == S % 24 or t:
+            yield {"k": "pbkdf2", "fn": ["sha1", "sha256", "sha512"][i % 3], "password": gen.rbytes(r, r.choice([0, 8, 64, 65])).hex(), "salt": None, "rounds": r.choice([1, 2, 10]), "len": r.choice([20, 32, 64, 65])}
     kinds = ["sha256d", "sha256r", "hash160", "signing_sha256", "signing_sha256d"]
     for L in range(0, 131):
         k += 1
@@ -125,8 +129,20 @@ def judge(ctx, case):
             ctx.viol("HMAC-%s differs from the reference (key %s block size)" % (case["fn"], "shorter than" if len(key) < bs else "equal to" if len(key) == bs else "longer than"), {"got": str(r.get("ok", r.get("panic")))[:200], "exp": exp})
     elif k == "pbkdf2":
         ctx.nontrivial()
-        r = ctx.call({"op": "pbkdf2", "fn": case["fn"], "password": case["password"], "salt": case["salt"], "rounds": case["rounds"], "len": case["len"]})
+        req = {"op": "pbkdf2", "fn": case["fn"], "password": case["password"], "rounds": case["rounds"], "len": case["len"]}
+        if case["salt"] is not None:
+            req["salt"] = case["salt"]
+        r = ctx.call(req)
         ctx.ev()
+        if case["salt"] is None:
+            ctx.hit("pbkdf2_random_salt")
+            if "ok" not in r or len(r["ok"]["salt"]) < 16:
+                ctx.viol("PBKDF2 with a library-chosen salt fails or reports an implausibly short salt", {"resp": str(r)[:200]})
+                return
+            exp = hashes.pbkdf2(case["fn"], bytes.fromhex(case["password"]), bytes.fromhex(r["ok"]["salt"]), case["rounds"], case["len"]).hex()
+            if r["ok"]["hash"] != exp:
+                ctx.viol("PBKDF2-%s with a library-chosen salt differs from the reference computed with the reported salt" % case["fn"], {})
+            return
         exp = hashes.pbkdf2(case["fn"], bytes.fromhex(case["password"]), bytes.fromhex(case["salt"]), case["rounds"], case["len"]).hex()
         if r.get("ok", {}).get("hash") != exp:
             ctx.viol("PBKDF2-%s differs from the reference" % case["fn"], {"got": str(r.get("ok", r.get("panic")))[:200], "exp": exp})
